@@ -15,8 +15,13 @@ and converts the diagrams ONE AFTER THE OTHER, IN STATEMENT ORDER, INTO ONE nati
   entry at all the initial `Term(0)` stays.
 
 The dump is a function `dump : T → List Node` (the parsed string; `Bridge.lean`: `Node`, `replayL`).
-What is ASSUMED about it (DESIGN §4, checked by the harness on every real dump) is a hypothesis of
-the theorems (`Bio.DumpSpec`), never an axiom. `term_vec[lo]` panics when `lo` is out of range; the
+What is ASSUMED about it is a hypothesis of the theorems (`Bio.DumpSpec`), never an axiom. It is NOT
+checked on real dumps: the harness never sees biodivine's own dump text (`adfbiodivine::Adf::ac` is
+`pub(crate)`); what the harness checks after every hybrid construction is the BRIDGED NATIVE TABLE -
+`wfCheck` on the node table that `from_biodivine_vector` produced and `isoCheck` of its handles against
+the natively compiled conditions. That validates the outcome of the bridge on the explored inputs,
+not the shape of the dump. `Bio.DumpSpec` is satisfiable by dumps of the shape biodivine writes
+(reduced, shared, with skipped levels): `Bio.storeDump_spec` (StoreLib.lean). `term_vec[lo]` panics when `lo` is out of range; the
 model reads `getD lo 0` there, which is never reached under `DumpOK` (`lo, hi < index`). -/
 namespace Bio
 
